@@ -881,7 +881,8 @@ class C20(Check):
                   "after any history heads every sender for the converted ORIGINAL target (every scalar type).  The 1% band for 60 < |lat0| <= 80 deg is supported by the sampled "
                   "comparison of this check only.")
     rule = ("references over latitudes +-80 deg and all longitudes, 2-8 targets within 5 km in all four quadrants with unequal "
-            "offsets, mirror pairs straddling the reference meridian / parallel, targets on the axes, targets with zero "
+            "offsets, about one reference in seven with its longitude in the 0..360 convention (181..359, targets in the same "
+            "convention on both sides of it), mirror pairs straddling the reference meridian / parallel, targets on the axes, targets with zero "
             "horizontal offset (the reference itself, points straight above / below it) and targets sharing exactly one "
             "coordinate with the reference; in a share of the cases the same targets are converted and flown under 1-3 further "
             "references in the same process (other launch sites, the first reference again); bit-level agreement of "
@@ -917,6 +918,12 @@ class C20(Check):
         else:
             lat0 = r.choice([-1, 1]) * r.uniform(60, 80)
         lon0 = r.choice([r.uniform(-179, 179), float(r.choice([0, 20, -20, 90, 179, -179]))])
+        # (own random stream)  longitudes in the 0..360 "degrees east" convention: a site in the western hemisphere
+        # is written 181..359 (e.g. 312.07 for 47.93 W); the targets and further references, derived from the
+        # reference by offsets, are in the same convention
+        r360 = random.Random(stable_hash("C20", "lon360", label))
+        if lon0 < -1.0 and r360.random() < 0.3:
+            lon0 = round(lon0 + 360.0, 2) if r360.random() < 0.5 else lon0 + 360.0
         alt0 = r.choice([0.0, r.uniform(0, 500)])
         ref = (lat0, lon0, alt0)
         mdeg = 180.0 / (math.pi * EARTH_R)        # degrees of latitude per metre
@@ -1215,6 +1222,11 @@ class C20(Check):
         acc["targets"] = acc.get("targets", 0) + len(case["targets"])
         b = "lat<=60" if abs(ref[0]) <= 60 else "lat<=80"
         acc[b] = acc.get(b, 0) + 1
+        if ref[1] > 180:
+            acc["reference_longitude_0_360_convention"] = acc.get("reference_longitude_0_360_convention", 0) + 1
+            if case.get("goto"):
+                acc["goto_with_reference_longitude_0_360_convention"] = \
+                    acc.get("goto_with_reference_longitude_0_360_convention", 0) + 1
         for t in case["targets"]:
             q = self.quadrant(ref, bitsv3(t))
             name = "quadrant_" + ("N" if q[0] else "S") + ("E" if q[1] else "W")
